@@ -355,7 +355,15 @@ func c09Push(c *mc.Ctx) {
 	cliTablesAbsent := c.ChooseDev(8) // the LOCAL repository holds some commits without their table (it was fetched shallowly; no remote-tracking ref remembers from where)
 	maxPF := []uint64{0, 1, 4096}[c.ChooseDev(3)]
 	mapRev := c.ChooseDev(2) == 1 // order of the candidate tables and ref lists (Go maps in the implementation)
+	// candidate tables offered per negotiation request (256 in the implementation; 1 and 2 make a
+	// push of two or three tables a multi-request negotiation)
+	batch := 256
+	if verifrt.Has("batchsize:push-tables") {
+		batch = []int{256, 1, 2}[c.ChooseDev(3)]
+	}
 	c.Shard()
+	verifrt.PushBatch = batch
+	defer func() { verifrt.PushBatch = 0 }()
 	needRewrite("maporder:push-tables")
 	needRewrite("maporder:finder-refs")
 	if mapRev {
@@ -396,8 +404,8 @@ func c09Push(c *mc.Ctx) {
 			crs.Set(fmt.Sprintf("heads/c%d", j), w.sums[t])
 		}
 	}
-	desc := fmt.Sprintf("parents=%v tables=%v local has %v remote has %v (tables absent at remote: %v); push node %d to heads/p; maxPackfileSize=%d mapOrderReversed=%v tablesAbsentLocally=%v",
-		g.Parents, tblOf, model.Bits(C), model.Bits(S), model.Bits(uint64(srvTablesAbsent)), tip, maxPF, mapRev, model.Bits(uint64(cliTablesAbsent)))
+	desc := fmt.Sprintf("parents=%v tables=%v local has %v remote has %v (tables absent at remote: %v); push node %d to heads/p; maxPackfileSize=%d mapOrderReversed=%v tablesAbsentLocally=%v tablesPerRequest=%d",
+		g.Parents, tblOf, model.Bits(C), model.Bits(S), model.Bits(uint64(srvTablesAbsent)), tip, maxPF, mapRev, model.Bits(uint64(cliTablesAbsent)), batch)
 	c.Logf("%s", desc)
 	srv := refsrv.New(sdb, srs)
 	client, err := apiclient.NewClient("http://refsrv.invalid", logr.Discard(), apiclient.WithTransport(refsrv.Transport(srv)))
